@@ -33,6 +33,7 @@ type Program struct {
 	relBusy   map[string]bool
 	defFamCache map[string][]string
 	defNested   map[string]bool
+	capSorts    []Sort
 }
 
 func loadProgram(repo string) (*Program, error) {
@@ -199,6 +200,45 @@ func keyOfFunction(fn *ssa.Function) string {
 		return pkg + ".(" + ptr + tn + ")." + fn.Name()
 	}
 	return pkg + "." + fn.Name()
+}
+
+// captureSorts: the sorts of the variables captured by some closure of the loaded packages
+func (p *Program) captureSorts() []Sort {
+	if p.capSorts != nil {
+		return p.capSorts
+	}
+	seen := map[Sort]bool{}
+	for _, k := range p.sortedFuncKeys() {
+		fn := p.Funcs[k]
+		for _, b := range fn.Blocks {
+			for _, in := range b.Instrs {
+				mc, ok := in.(*ssa.MakeClosure)
+				if !ok {
+					continue
+				}
+				for _, bd := range mc.Bindings {
+					pt, ok := bd.Type().Underlying().(*types.Pointer)
+					if !ok {
+						continue
+					}
+					switch pt.Elem().Underlying().(type) {
+					case *types.Struct, *types.Array:
+						continue
+					}
+					s := p.Universe.sortOf(pt.Elem())
+					if !seen[s] {
+						seen[s] = true
+						p.capSorts = append(p.capSorts, s)
+					}
+				}
+			}
+		}
+	}
+	sort.Slice(p.capSorts, func(i, j int) bool { return p.capSorts[i] < p.capSorts[j] })
+	if p.capSorts == nil {
+		p.capSorts = []Sort{}
+	}
+	return p.capSorts
 }
 
 func (p *Program) sortedFuncKeys() []string {
